@@ -756,6 +756,11 @@ func runNoStuckWait(c *Ctx) {
 				if sel, ok := ast.Unparen(e).(*ast.SelectorExpr); ok && sel.Sel.Name == "scheduleDone" {
 					return "schedule-done", true, true
 				}
+				// "nothing right now": the verdict on the receiver's last complete chunk is still out. Temporary, provided
+				// whoever sets verifyPending also clears it and wakes the workers on every path (checked below).
+				if sel, ok := ast.Unparen(e).(*ast.SelectorExpr); ok && sel.Sel.Name == "verifyPending" && verdictAlwaysDelivered(p) {
+					return "schedule-done", true, true
+				}
 				return "", false, false
 			}},
 		}}
@@ -1024,4 +1029,72 @@ func runSanitizer(c *Ctx) {
 	} else {
 		c.MissingAnchor("transfer.validateFilename")
 	}
+}
+
+// verdictAlwaysDelivered: every literal started with `go` right where verifyPending is set to true clears it again and calls
+// signalWake on all of its paths, so a worker that was told "nothing right now" is woken when the verdict is in.
+func verdictAlwaysDelivered(p *Program) bool {
+	found, ok := false, true
+	for _, f := range p.FuncsIn("internal/transfer") {
+		info := f.Info()
+		setsPending := false
+		InspectNoLits(f.Body, func(n ast.Node) bool {
+			if as, isAs := n.(*ast.AssignStmt); isAs && len(as.Lhs) == 1 && len(as.Rhs) == 1 {
+				if sel, isSel := ast.Unparen(as.Lhs[0]).(*ast.SelectorExpr); isSel && sel.Sel.Name == "verifyPending" && types.ExprString(as.Rhs[0]) == "true" {
+					setsPending = true
+				}
+			}
+			return true
+		})
+		if !setsPending {
+			continue
+		}
+		// the goroutine literals of f
+		for _, k := range f.Kids {
+			isGo := false
+			ast.Inspect(f.Body, func(n ast.Node) bool {
+				if gs, isG := n.(*ast.GoStmt); isG && ast.Unparen(gs.Call.Fun) == ast.Expr(k.Lit) {
+					isGo = true
+				}
+				return true
+			})
+			if !isGo {
+				continue
+			}
+			found = true
+			kcfg := k.CFG()
+			clears := func(n ast.Node) bool {
+				hit := false
+				InspectNoLits(n, func(m ast.Node) bool {
+					if as, isAs := m.(*ast.AssignStmt); isAs && len(as.Lhs) == 1 && len(as.Rhs) == 1 {
+						if sel, isSel := ast.Unparen(as.Lhs[0]).(*ast.SelectorExpr); isSel && sel.Sel.Name == "verifyPending" && types.ExprString(as.Rhs[0]) == "false" {
+							hit = true
+						}
+					}
+					return true
+				})
+				return hit
+			}
+			wakes := func(n ast.Node) bool {
+				hit := false
+				InspectNoLits(n, func(m ast.Node) bool {
+					if call, isC := m.(*ast.CallExpr); isC {
+						if id, isID := ast.Unparen(call.Fun).(*ast.Ident); isID && id.Name == "signalWake" {
+							if v, isV := ObjOf(k.Info(), id).(*types.Var); isV && p.ClosureOfVar(v) != nil {
+								hit = true
+							}
+						}
+					}
+					return true
+				})
+				return hit
+			}
+			never := func(ast.Node) bool { return false }
+			if !allPathsHit(kcfg, NodeRef{kcfg.Entry(), -1}, clears, never) || !allPathsHit(kcfg, NodeRef{kcfg.Entry(), -1}, wakes, never) {
+				ok = false
+			}
+		}
+		_ = info
+	}
+	return found && ok
 }
